@@ -17,7 +17,9 @@
 (*   None [t]               Ty [t, s]   a type object (float, ...)         *)
 (*   T    [t, c]            tuple                                          *)
 (*   M    [t, mt, kv]       mapping, kv = seq of [k, v] in insertion order *)
-(*                          mt = "imm" (immutabledict) | "dict"            *)
+(*                          mt = the FORM of the mapping object (round 5,  *)
+(*                          see MapForms): "imm" (immutabledict) | "dict"  *)
+(*                          | "odict" | "chain" | "proxy" | "pimm" | "umap"*)
 (*   N    [t, cls, f]       expression node: class name + field values in  *)
 (*                          declaration order                              *)
 (***************************************************************************)
@@ -255,10 +257,38 @@ EqTop(a, b) ==
     ELSE IF a.cls # b.cls \/ Len(a.f) # Len(b.f) THEN "F"
     ELSE And3({ Eq3V(a.f[i], b.f[i], FALSE) : i \in 1..Len(a.f) })
 
+(***************************************************************************)
+(* Round 5: the FORM in which a container-valued field is handed to a      *)
+(* constructor is an input dimension.  A keyword mapping is any Mapping:   *)
+(*   imm    immutabledict                      hashable, nothing to mutate *)
+(*   dict   a plain dict the caller keeps      unhashable, live            *)
+(*   odict  collections.OrderedDict            unhashable, live            *)
+(*   chain  collections.ChainMap over a dict   unhashable, live            *)
+(*   umap   a collections.abc.Mapping subclass reading a dict the caller   *)
+(*          keeps                              unhashable, live            *)
+(*   proxy  types.MappingProxyType over a dict the caller keeps: a read-   *)
+(*          only VIEW; has a __hash__ slot (Python >= 3.12) that raises:   *)
+(*          only nominally hashable, live                                  *)
+(*   pimm   types.MappingProxyType over an immutabledict: hashable (the    *)
+(*          view hashes and compares as what it shows), nothing to mutate  *)
+(* "live": the caller still holds an object through which the contents can *)
+(* change after the node was built.  Python's == on mappings does not look *)
+(* at the form (PyEq never reads mt).  What the statement needs of a node  *)
+(* built from ANY of them: it is hashable, it is == the node built from    *)
+(* the canonical form, and nothing the caller later does to the object it  *)
+(* passed changes the node (C01_Objects: BuiltHashable, BuiltAsGiven,      *)
+(* Immutable along Mutate events).                                         *)
+(***************************************************************************)
+MapForms      == {"imm", "dict", "odict", "chain", "umap", "proxy", "pimm"}
+LiveForms     == {"dict", "odict", "chain", "umap", "proxy"}
+HashableForms == {"imm", "pimm"}           \* hash(m) does not raise (given hashable values)
+\* forms whose TYPE has a __hash__ slot (isinstance(m, collections.abc.Hashable))
+NominallyHashableForms == {"imm", "pimm", "proxy"}
+
 \* hash(v) does not raise
 Hashable(v) ==
     CASE v.t = "T" -> \A i \in 1..Len(v.c) : Hashable(v.c[i])
-      [] v.t = "M" -> v.mt = "imm" /\ \A i \in 1..Len(v.kv) : Hashable(v.kv[i].v)
+      [] v.t = "M" -> v.mt \in HashableForms /\ \A i \in 1..Len(v.kv) : Hashable(v.kv[i].v)
       [] v.t = "N" -> \A i \in 1..Len(v.f) : Hashable(v.f[i])
       [] OTHER -> TRUE
 
@@ -324,6 +354,33 @@ Norm(v) ==
            [] OTHER -> v
 
 IsErr(v) == v.t = "Err"
+
+\* the same value with every mapping in it given in form F / the forms that occur in v
+RECURSIVE WithForm(_, _), FormsIn(_)
+WithForm(v, F) ==
+    CASE v.t = "T" -> [v EXCEPT !.c = [i \in 1..Len(v.c) |-> WithForm(v.c[i], F)]]
+      [] v.t = "M" -> [v EXCEPT !.mt = F,
+                                !.kv = [i \in 1..Len(v.kv) |-> [v.kv[i] EXCEPT !.v = WithForm(v.kv[i].v, F)]]]
+      [] v.t = "N" -> [v EXCEPT !.f = [i \in 1..Len(v.f) |-> WithForm(v.f[i], F)]]
+      [] OTHER -> v
+FormsIn(v) ==
+    CASE v.t = "T" -> UNION { FormsIn(v.c[i]) : i \in 1..Len(v.c) }
+      [] v.t = "M" -> {v.mt} \cup UNION { FormsIn(v.kv[i].v) : i \in 1..Len(v.kv) }
+      [] v.t = "N" -> UNION { FormsIn(v.f[i]) : i \in 1..Len(v.f) }
+      [] OTHER -> {}
+\* the constructor normalises nodes nested in the arguments as well (they were built first)
+RECURSIVE NormDeep(_)
+NormDeep(v) ==
+    CASE v.t = "T" -> LET c == [i \in 1..Len(v.c) |-> NormDeep(v.c[i])] IN
+                      IF \E i \in 1..Len(c) : IsErr(c[i]) THEN c[CHOOSE i \in 1..Len(c) : IsErr(c[i])]
+                      ELSE [v EXCEPT !.c = c]
+      [] v.t = "M" -> LET c == [i \in 1..Len(v.kv) |-> NormDeep(v.kv[i].v)] IN
+                      IF \E i \in 1..Len(c) : IsErr(c[i]) THEN c[CHOOSE i \in 1..Len(c) : IsErr(c[i])]
+                      ELSE [v EXCEPT !.kv = [i \in 1..Len(v.kv) |-> [v.kv[i] EXCEPT !.v = c[i]]]]
+      [] v.t = "N" -> LET c == [i \in 1..Len(v.f) |-> NormDeep(v.f[i])] IN
+                      IF \E i \in 1..Len(c) : IsErr(c[i]) THEN c[CHOOSE i \in 1..Len(c) : IsErr(c[i])]
+                      ELSE Norm([v EXCEPT !.f = c])
+      [] OTHER -> v
 
 \* a node is well formed when it has as many fields as its class declares
 WellFormed(v) == v.t = "N" => Len(v.f) = Len(FieldsOf(v.cls))
